@@ -302,7 +302,12 @@ class Provenance(Monitor):
             # for a wrapper with star parameters of its own it is not "handed back", it is mistaken for the wrapper's)
             copied = stored is not None and wrapped is not None and \
                 getattr(wrapped, '__dict__', {}).get('__signature__') is stored and bool(subject.__code__.co_flags & 0x0c)
-            if value is not stored or copied:
+            # (... nor when inspect itself -- patched by the repository's own tests -- answers with a ready-made upgraded
+            # signature: then nothing was discovered either)
+            # (judged for functools.wraps-decorated functions without a forger of their own: what a user-supplied
+            # forger returns is the user's business)
+            wraps_made = wrapped is not None and not hasattr(subject, '_sigtools__forger')
+            if wraps_made and (copied or (value is not stored and not handed_over(subject, value))):
                 ctx.count('C08.function_outermost_checked')
                 if not any(c is subject and d == 0 for c, d in depths.items()):
                     V('retrieved-function-not-at-depth-0', 'the function asked about is not at depth 0 of the signature discovered for it')
